@@ -97,7 +97,7 @@ theorem followStatement_ran (F : Facts) (tables : List Table) (stmt : Stmt) (fro
     | some tb =>
       rw [hg] at h
       simp only [bind, Option.bind] at h
-      cases hm : dl.mapM (mkFollowLine F tb.defn) with
+      cases hm : (handedLines dl sa).mapM (mkFollowLine F tb.defn) with
       | none => rw [hm] at h; cases h
       | some ls =>
         rw [hm] at h
@@ -208,8 +208,103 @@ theorem run_file_appended (s : Follow) (ops : List FollowOp) :
       simp only [readerOps, appendedBytes]
       exact ih s
 
-theorem deliveredBy_eq (head : Bool) (initial : List Nat) (ops : List FollowOp) :
-    deliveredBy head initial ops = (Props.C10.reached initial head followCap (readerOps ops)).delivered := rfl
+/-! #### the iterator that looks at the flag (`driveReader`) against the plain reader machine -/
+
+/-- without an interrupt in the schedule `driveReader` is the reader machine of `Model/Reader.lean` over the reader's
+share of the schedule, and `next()` has not returned `None` -/
+theorem driveReader_no_interrupt (s : Follow) (ops : List FollowOp) (h : FollowOp.interrupt ∉ ops) :
+    driveReader s false ops = (Reader.run s (readerOps ops), false) := by
+  induction ops generalizing s with
+  | nil => rfl
+  | cons op rest ih =>
+    have hr : FollowOp.interrupt ∉ rest := fun hm => h (List.mem_cons_of_mem _ hm)
+    cases op with
+    | append bs => simp only [driveReader, readerOps, Reader.run, List.foldl_cons]; exact ih _ hr
+    | poll k =>
+      simp only [driveReader, readerOps, Reader.run, List.foldl_cons, Bool.false_and, Bool.false_eq_true, if_false]
+      exact ih _ hr
+    | interrupt => exact absurd (List.mem_cons_self ..) h
+
+/-- whatever the flag does, what `driveReader` has delivered is a prefix of what the plain machine delivers over the same
+schedule (it only ever stops early) … -/
+theorem driveReader_delivered_le_run (s : Follow) (i : Bool) (ops : List FollowOp) :
+    (driveReader s i ops).1.delivered <+: (Reader.run s (readerOps ops)).delivered := by
+  induction ops generalizing s i with
+  | nil => exact List.prefix_refl _
+  | cons op rest ih =>
+    cases op with
+    | append bs => simp only [driveReader, readerOps, Reader.run, List.foldl_cons]; exact ih _ _
+    | interrupt => simp only [driveReader, readerOps]; exact ih _ _
+    | poll k =>
+      simp only [driveReader, readerOps, Reader.run, List.foldl_cons]
+      split
+      · exact run_delivered_prefix _ _
+      · exact ih _ _
+
+/-- … and an extension of what had been delivered before -/
+theorem driveReader_extends (s : Follow) (i : Bool) (ops : List FollowOp) :
+    s.delivered <+: (driveReader s i ops).1.delivered := by
+  induction ops generalizing s i with
+  | nil => exact List.prefix_refl _
+  | cons op rest ih =>
+    have step1 : ∀ o, s.delivered <+: (Reader.step s o).delivered := by
+      intro o
+      have := run_delivered_prefix s [o]
+      simpa [Reader.run] using this
+    cases op with
+    | append bs => simp only [driveReader]; exact (step1 _).trans (ih _ _)
+    | interrupt => simp only [driveReader]; exact ih _ _
+    | poll k =>
+      simp only [driveReader]
+      split
+      · exact step1 _
+      · exact (step1 _).trans (ih _ _)
+
+theorem driveReader_append (s : Follow) (pre rest : List FollowOp) (h : FollowOp.interrupt ∉ pre) :
+    driveReader s false (pre ++ rest) = driveReader (Reader.run s (readerOps pre)) false rest := by
+  induction pre generalizing s with
+  | nil => rfl
+  | cons op pre ih =>
+    have hr : FollowOp.interrupt ∉ pre := fun hm => h (List.mem_cons_of_mem _ hm)
+    cases op with
+    | append bs => simp only [List.cons_append, driveReader, readerOps, Reader.run, List.foldl_cons]; exact ih _ hr
+    | poll k =>
+      simp only [List.cons_append, driveReader, readerOps, Reader.run, List.foldl_cons, Bool.false_and, Bool.false_eq_true, if_false]
+      exact ih _ hr
+    | interrupt => exact absurd (List.mem_cons_self ..) h
+
+theorem deliveredBy_eq (head : Bool) (initial : List Nat) (ops : List FollowOp) (h : FollowOp.interrupt ∉ ops) :
+    deliveredBy head initial ops = (Props.C10.reached initial head followCap (readerOps ops)).delivered := by
+  unfold deliveredBy
+  rw [driveReader_no_interrupt _ _ h]
+  rfl
+
+/-- **what had been delivered stays delivered**: the lines delivered by a schedule without interrupt are a prefix of the
+lines delivered by every continuation of it — interrupted or not -/
+theorem deliveredBy_stable (head : Bool) (initial : List Nat) (pre rest : List FollowOp) (h : FollowOp.interrupt ∉ pre) :
+    deliveredBy head initial pre <+: deliveredBy head initial (pre ++ rest) := by
+  unfold deliveredBy
+  rw [driveReader_append _ pre rest h, driveReader_no_interrupt _ pre h]
+  exact driveReader_extends _ _ _
+
+theorem beforeInterrupt_split (pre rest : List FollowOp) (h : FollowOp.interrupt ∉ pre) :
+    beforeInterrupt (pre ++ FollowOp.interrupt :: rest) = some pre := by
+  induction pre with
+  | nil => rfl
+  | cons op pre ih =>
+    have hr : FollowOp.interrupt ∉ pre := fun hm => h (List.mem_cons_of_mem _ hm)
+    cases op with
+    | interrupt => exact absurd (List.mem_cons_self ..) h
+    | append bs => simp [beforeInterrupt, ih hr]
+    | poll k => simp [beforeInterrupt, ih hr]
+
+/-- **where the interrupt falls**: the flag is found cleared after exactly the lines the schedule before the interrupt
+had delivered -/
+theorem interruptPoint_split (head : Bool) (initial : List Nat) (pre rest : List FollowOp) (h : FollowOp.interrupt ∉ pre) :
+    interruptPoint head initial (pre ++ FollowOp.interrupt :: rest) = some (deliveredBy head initial pre).length := by
+  unfold interruptPoint
+  rw [beforeInterrupt_split pre rest h]
+  rfl
 
 theorem reached_content (head : Bool) (initial : List Nat) (ops : List FollowOp) :
     let s := Props.C10.reached initial head followCap (readerOps ops)
@@ -234,7 +329,7 @@ theorem deliveredBy_prefix (head : Bool) (initial : List Nat) (ops : List Follow
   have e := reached_content head initial ops
   simp only at h e
   rw [e] at h
-  exact h
+  exact (driveReader_delivered_le_run _ false ops).trans h
 
 theorem appendedBytes_polls (ops : List FollowOp) (ks : List Nat) :
     appendedBytes (ops ++ ks.map FollowOp.poll) = appendedBytes ops := by
@@ -248,6 +343,7 @@ theorem appendedBytes_polls (ops : List FollowOp) (ks : List Nat) :
 /-- **progress**: when the schedule ends with at least as many polls as there were bytes pending, every complete line
 has been delivered -/
 theorem deliveredBy_quiescent (head : Bool) (initial : List Nat) (ops : List FollowOp) (ks : List Nat)
+    (hi : FollowOp.interrupt ∉ ops)
     (hn : pending (Props.C10.reached initial head followCap (readerOps ops)) ≤ ks.length) :
     deliveredBy head initial (ops ++ ks.map .poll) = completeLines (followedContent head initial ops) := by
   have h := (Props.C10.follow_progress initial head followCap (by decide) (readerOps ops) ks hn).1
@@ -255,7 +351,8 @@ theorem deliveredBy_quiescent (head : Bool) (initial : List Nat) (ops : List Fol
     rw [readerOps_append, readerOps_polls]
   have e' := reached_content head initial (ops ++ ks.map .poll)
   simp only at h e'
-  rw [deliveredBy_eq, e, h, ← e, e']
+  have hi' : FollowOp.interrupt ∉ ops ++ ks.map FollowOp.poll := by simp [hi]
+  rw [deliveredBy_eq _ _ _ hi', e, h, ← e, e']
   have := appendedBytes_polls ops ks
   unfold followedContent
   rw [this]
@@ -275,11 +372,73 @@ theorem interruptPoint_none (head : Bool) (initial : List Nat) (ops : List Follo
   rw [(beforeInterrupt_none_iff ops).2 h]
   rfl
 
+theorem poll_retry_of_pending_zero (s : Follow) (k : Nat) (hinv : Inv s) (h0 : pending s = 0) :
+    s.retries < (Reader.step s (.poll k)).retries := by
+  obtain ⟨_, hacc, _, _, _⟩ := hinv
+  unfold pending at h0
+  have hb : s.buf = [] := List.eq_nil_of_length_eq_zero (by omega)
+  have hd : List.drop s.pos s.file = [] := List.drop_eq_nil_of_le (by omega)
+  have hnl : endsWithNl s.acc = false := by
+    unfold endsWithNl
+    cases hl : s.acc.getLast? with
+    | none => rfl
+    | some x =>
+      have hx : x ≠ nl := fun e => hacc (by rw [← e]; exact List.mem_of_getLast? hl)
+      simp [hx]
+  simp only [Reader.step, fill, hb, if_true, hd, List.take_nil, consume, afterRead, hnl, Bool.false_eq_true, if_false]
+  omega
+
+/-- after an interrupt the iterator ends within the polls needed to drain what is pending, plus one -/
+theorem driveReader_polls_end (s : Follow) (hinv : Inv s) (hc : 1 ≤ s.cap) (ks : List Nat) (h : pending s < ks.length) :
+    (driveReader s true (ks.map FollowOp.poll)).2 = true := by
+  induction ks generalizing s with
+  | nil => simp at h
+  | cons k ks ih =>
+    simp only [List.map_cons, driveReader, Bool.true_and]
+    by_cases hr : s.retries < (Reader.step s (.poll k)).retries
+    · simp [hr]
+    · simp only [hr, decide_false, Bool.false_eq_true, if_false]
+      have hp : 0 < pending s := by
+        rcases Nat.eq_zero_or_pos (pending s) with h0 | h0
+        · exact absurd (poll_retry_of_pending_zero s k hinv h0) hr
+        · exact h0
+      have h1 := poll_pending s k hc
+      refine ih _ (step_inv s _ hinv) (by rw [(poll_frame s k).2.2]; exact hc) ?_
+      simp only [List.length_cons] at h
+      omega
+theorem run_cap (s : Follow) (ops : List Reader.Op) : (Reader.run s ops).cap = s.cap := by
+  unfold Reader.run
+  induction ops generalizing s with
+  | nil => rfl
+  | cons op ops ih =>
+    simp only [List.foldl_cons]
+    rw [ih]
+    cases op with
+    | append bs => rfl
+    | poll k => exact (poll_frame s k).2.2
+
+/-- **an interrupted follow run stops waiting**: after the interrupt, within as many polls as there are bytes pending
+plus one, `next()` returns `None` — whatever the file does not do any more -/
+theorem iteratorEnded_after_interrupt (head : Bool) (initial : List Nat) (pre : List FollowOp) (ks : List Nat)
+    (hi : FollowOp.interrupt ∉ pre)
+    (hn : pending (Props.C10.reached initial head followCap (readerOps pre)) < ks.length) :
+    iteratorEnded head initial (pre ++ FollowOp.interrupt :: ks.map FollowOp.poll) = true := by
+  unfold iteratorEnded
+  rw [driveReader_append _ pre _ hi]
+  simp only [driveReader]
+  apply driveReader_polls_end _ (run_inv _ _ (init_inv initial head followCap)) _ ks hn
+  rw [run_cap]
+  show 1 ≤ followCap
+  decide
+
 /-! ### delivered lines that the batch reader reads as the same text -/
 
 /-- a delivered line whose text is the same for `BufRead::lines`: no `\n` inside (true of every delivered line), valid
 UTF-8 (so `from_utf8_lossy` is the identity), no `\r` at its end (the batch reader would remove it) -/
 def PlainLine (l : List Nat) : Prop := nl ∉ l ∧ validUtf8 l = true ∧ l.getLast? ≠ some cr
+
+instance (l : List Nat) : Decidable (PlainLine l) :=
+  inferInstanceAs (Decidable (nl ∉ l ∧ validUtf8 l = true ∧ l.getLast? ≠ some cr))
 
 theorem lines_wire_plain (ls : List (List Nat)) (h : ∀ l ∈ ls, PlainLine l) : Reader.lines (wire ls) = ls.map .ok := by
   have e : wire ls = unlines ls := rfl
@@ -397,6 +556,28 @@ theorem screens_last_after_clear (w₀ : List TermItem) (ls : List Print.Bytes) 
           simp only
           refine ⟨?_, by simp⟩
           simpa using h1
+/-- a clear followed by lines only adds one screen: those lines -/
+theorem screens_append_clear (w₀ : List TermItem) (ls : List Print.Bytes) :
+    screens (w₀ ++ TermItem.clear :: ls.map TermItem.line) = screens w₀ ++ [ls] := by
+  induction w₀ with
+  | nil => simp [screens, screens_lines]
+  | cons it rest ih =>
+    cases it with
+    | clear => simp only [List.cons_append, screens, ih]
+    | line bs =>
+      simp only [List.cons_append, screens, ih]
+      cases h : screens rest with
+      | nil => exact absurd h (screens_ne_nil _)
+      | cons s ss => rfl
+
+theorem keysExact_of_simple (ks : List (List Value)) (h : ks.all (fun k => k.all Spec.Agg.simpleValue) = true) : KeysExact ks := by
+  intro a ha b hb hab
+  rw [List.all_eq_true] at h
+  exact cmpList_eq_of_simple (h a ha) (h b hb) hab
+
+theorem keysExact_subset {ks ks' : List (List Value)} (h : ∀ k ∈ ks', k ∈ ks) (hex : KeysExact ks) : KeysExact ks' :=
+  fun a ha b hb hab => hex a (h a ha) b (h b hb) hab
+
 /-! ### the answer of a run -/
 
 /-- the answer of a follow run that neither skips nor meets a missing REAL rendering -/
@@ -455,11 +636,29 @@ theorem realsCover_prefix (F : Facts) {a b : List PrintCall} (h : a <+: b) (hb :
 theorem followStatement_defined (F : Facts) (tables : List Table) (stmt : Stmt) (fromTable : String) (dl : List (List Nat))
     (sa : Option Nat) (t : Table) (hg : getTable tables fromTable = some t) :
     followStatement F tables stmt fromTable none dl sa =
-      (dl.mapM (mkFollowLine F t.defn)).map
+      ((handedLines dl sa).mapM (mkFollowLine F t.defn)).map
         (fun ls => .ran (runFollowAllT F.eval { stmt := stmt, table := t.info, join := none } sa ls)) := by
   unfold followStatement
   simp only [hg, bind, pure]
-  cases dl.mapM (mkFollowLine F t.defn) <;> rfl
+  cases (handedLines dl sa).mapM (mkFollowLine F t.defn) <;> rfl
+
+theorem mapM_length {α β : Type} (f : α → Option β) (xs : List α) (ys : List β) (h : xs.mapM f = some ys) :
+    ys.length = xs.length := by
+  induction xs generalizing ys with
+  | nil => simp at h; subst h; rfl
+  | cons x rest ih =>
+    rw [List.mapM_cons] at h
+    cases hx : f x with
+    | none => rw [hx] at h; cases h
+    | some y =>
+      rw [hx] at h
+      cases hr : rest.mapM f with
+      | none => rw [hr] at h; cases h
+      | some ys' =>
+        rw [hr] at h
+        simp only [bind, Option.bind, pure, Option.some.injEq] at h
+        subst h
+        simp [ih ys' hr]
 
 theorem mapM_take {α β : Type} (f : α → Option β) (xs : List α) (ys : List β) (k : Nat) (h : xs.mapM f = some ys) :
     (xs.take k).mapM f = some (ys.take k) := by
@@ -684,12 +883,14 @@ theorem runStatement_wire (F : Facts) (tables : List Table) (stmt : Stmt) (fromT
 
 /-- the follow run over plain lines, for a statement without join whose FROM table is defined -/
 theorem followStatement_plain (F : Facts) (tables : List Table) (stmt : Stmt) (fromTable : String) (t : Table)
-    (hg : getTable tables fromTable = some t) (ls : List (List Nat)) (sa : Option Nat) (h : ∀ l ∈ ls, validUtf8 l = true) :
-    followStatement F tables stmt fromTable none ls sa =
+    (hg : getTable tables fromTable = some t) (ls : List (List Nat)) (h : ∀ l ∈ ls, validUtf8 l = true) :
+    followStatement F tables stmt fromTable none ls none =
       if ls.all (factsCover F t.defn) then
-        some (.ran (runFollowAllT F.eval { stmt := stmt, table := t.info, join := none } sa (ls.map (extractedLine F t.defn))))
+        some (.ran (runFollowAllT F.eval { stmt := stmt, table := t.info, join := none } none (ls.map (extractedLine F t.defn))))
       else none := by
-  rw [followStatement_defined F tables stmt fromTable ls sa t hg, mapM_mkFollowLine_valid F t.defn ls h]
+  rw [followStatement_defined F tables stmt fromTable ls none t hg]
+  show (ls.mapM (mkFollowLine F t.defn)).map _ = _
+  rw [mapM_mkFollowLine_valid F t.defn ls h]
   cases ls.all (factsCover F t.defn) <;> rfl
 
 end Sqlgrep.Pipeline
